@@ -1120,6 +1120,32 @@ func (w *world) exec1(line string) {
 		pth, rel := snapshotPath(c, unhx(tok[3]), tok[2] == "1")
 		fmt.Fprintln(w.ann, line)
 		fmt.Fprintf(w.out, "path %s %s\n", hx(pth), hx(rel))
+	case "trimpath":
+		// trimpath <0|1>: the library's -trimpath mode (callers' directories unknown, relative snapshot directories are
+		// relative to the working directory); the working directory becomes the world's directory
+		isTrimBathBuild = tok[1] == "1"
+		os.Chdir(w.root)
+		fmt.Fprintln(w.ann, line)
+		fmt.Fprintln(w.out, "trimpath ok")
+	case "chdir":
+		// chdir <hex rel>: the test changes the working directory (os.Chdir / t.Chdir) to a directory of the world
+		os.MkdirAll(w.abs(unhx(tok[1])), 0o755)
+		os.Chdir(w.abs(unhx(tok[1])))
+		fmt.Fprintln(w.ann, line)
+		fmt.Fprintln(w.out, "chdir ok")
+	case "cfgfields":
+		// cfgfields <n>: white-box, the fields of a Config as they are now
+		c := w.cfgs[atoi(tok[1])]
+		upd := "nil"
+		if c.update != nil {
+			upd = fmt.Sprint(*c.update)
+		}
+		js := "nil"
+		if c.json != nil {
+			js = fmt.Sprintf("%d:%s:%v", c.json.Width, hx(c.json.Indent), c.json.SortKeys)
+		}
+		fmt.Fprintln(w.ann, line)
+		fmt.Fprintf(w.out, "cfgfields fn=%s dir=%s ext=%s upd=%s json=%s\n", hx(c.filename), hx(c.snapsDir), hx(c.extension), upd, js)
 	case "cfgrel":
 		// cfgrel <n> <dir|-> <file|-> <ext|->: a Config whose Dir is taken literally (may be relative)
 		var opts []func(*Config)
@@ -1400,7 +1426,11 @@ func TestVerifHarness(t *testing.T) {
 	sc := bufio.NewScanner(in)
 	sc.Buffer(make([]byte, 1<<20), 1<<30)
 	var w *world
+	homeDir, _ := os.Getwd()
 	newWorld := func() {
+		// (a `trimpath 1` / `chdir` of the previous world ends with it)
+		isTrimBathBuild = false
+		os.Chdir(homeDir)
 		if w != nil {
 			if w.pending != nil {
 				w.runNested()
